@@ -91,3 +91,17 @@ def bip32_master(seed: bytes) -> tuple[bytes, bytes]:
 
 def bip85_entropy(child_private_key: bytes) -> bytes:
     return hmac.new(b"bip-entropy-from-k", child_private_key, hashlib.sha512).digest()
+
+
+def slip39_cipher(payload: bytes, passphrase: str, exponent: int, identifier: int, extendable: bool, decrypt: bool) -> bytes:
+    """SLIP-0039's four-round Feistel network, from the text: PBKDF2-HMAC-SHA256, 2500 << e iterations per round, password
+    = round index || passphrase, salt = ("shamir" || identifier, or nothing for an extendable backup) || R."""
+    import hashlib  # noqa: PLC0415
+
+    salt = b"" if extendable else b"shamir" + identifier.to_bytes(2, "big")
+    half = len(payload) // 2
+    left, right = payload[:half], payload[half:]
+    for i in (3, 2, 1, 0) if decrypt else (0, 1, 2, 3):
+        f = hashlib.pbkdf2_hmac("sha256", bytes([i]) + passphrase.encode(), salt + right, 2500 << exponent, len(right))
+        left, right = right, bytes(x ^ y for x, y in zip(left, f))
+    return right + left
